@@ -45,6 +45,21 @@ BUILT = {
             'without exactly one n-relation are outside the statement and only counted; model-glass thresholds are 2x '
             'the 99.9th percentile measured on the unchanged tree.',
             'DESIGN.md §4 C18'),
+    'C17': ('law monitors: Fresnel energy balance with an independent Snell angle, Jones-matrix algebra (projector, unitarity, rotation covariance), and polarized traces of generated lenses (intensity, transversality, unpolarized = mean of orthogonal pairs)',
+            'Exploration: ~86k Fresnel points, ~18k element matrices and ~130k polarized rays per quick run (16x in '
+            'thorough) checked against closed-form laws at 1e-12; held = no law broken on what was generated.',
+            'Trusts vkit/oracles/polarization.py; circular handedness is a convention (either accepted); the '
+            'energy tolerance is widened towards the critical angle by the conditioning of cos(theta_t).',
+            'DESIGN.md §4 C17'),
+    'C03': ('reference-model monitor on the launch record (surface 0) of every trace: origin, direction, aim point in the ABCD entrance pupil, intensity/path/wavelength; rejection table; distribution counts',
+            'Exploration: 480 (quick) / 32k (thorough) configurations over every cell of aperture kind x field type x '
+            'object distance x telecentric flag, with and without vignetting, plus all named distributions; each '
+            'launched ray is propagated to the independently computed entrance pupil plane and must hit '
+            '(Px,Py)*EPD/2; inadmissible cells must raise ValueError. Held = no launched ray deviated.',
+            'Pupil of axially symmetric lenses from the independent ABCD oracle, of tilted/decentred ones from the '
+            'library; lens classes covered by C04 findings (asphere r^2 term, negative power with imageFNO) are not '
+            're-litigated here.',
+            'DESIGN.md §4 C03'),
 }
 
 NOT_YET = {}
